@@ -48,3 +48,9 @@ claim("C16",
       "Decides that a ClientID reaches request processing only through one cache written by the pre-request hook from the extractor's result and keyed by the proxy's unique request ID on both sides, that the cache is cleared whenever that ID namespace is re-created, that every non-empty ClientID returned is lower-cased and passed label validation on its path, that extractors run only for HTTPS/TLS/QUIC (plain and DNSCrypt never yield one), that an extraction error ends in SERVFAIL before any access check or cache write, and that the server-name and DoH-path forms carry their shape guards (immediate subdomain, strict mismatch is an error, first segment dns-query, exactly two segments, cleaned path). "
       "Correctness of the string surgery itself for look-alike suffixes, path cleaning and Host parsing is value-level and not decided.",
       "DESIGN.md §5 C16")
+
+claim("C12",
+      "CFG edge guards on the login handler, provenance slice of the throttling key, must-pass ordering in newCookie / checkSession / removeSession / loadSessions, lock-dominance for the limiter and session maps (static analysis)",
+      "Decides that the password can be evaluated only after the limiter's check reported no block, that check and count use one value that derives only from the TCP peer address, that every failed evaluation increments and every successful one clears the record before the session exists, that a session authenticates only when found and unexpired, that expiry and logout delete it from table and file (table first), that only unexpired sessions are loaded at start, and that both maps are touched only under their locks. "
+      "Attempt counting, time windows, clock behaviour and bbolt durability are value/time-level and not decided.",
+      "DESIGN.md §5 C12")
